@@ -124,6 +124,7 @@ pub struct Acc {
     pub violations: Mutex<Vec<Violation>>,
     pub outcomes: Mutex<BTreeMap<String, u64>>,
     pub counters: Mutex<BTreeMap<String, u64>>,
+    pub fallback: Mutex<Option<Value>>,
 }
 impl Acc {
     pub fn eval(&self, n: u64) {
@@ -140,6 +141,13 @@ impl Acc {
         let mut s = self.samples.lock().unwrap();
         if s.len() < 6 {
             s.push(v);
+        }
+    }
+    /// a case to show when no case satisfied the (stricter) sampling condition of a check
+    pub fn fallback(&self, f: impl FnOnce() -> Value) {
+        let mut fb = self.fallback.lock().unwrap();
+        if fb.is_none() {
+            *fb = Some(f());
         }
     }
     pub fn want_sample(&self) -> bool {
@@ -310,7 +318,12 @@ pub fn finish(ctx: &Ctx, acc: &Acc, fin: Finish) -> i32 {
     let capped = ctx.capped.load(Ordering::Relaxed);
     let evaluations = acc.evaluations.load(Ordering::Relaxed).max(1);
     let distinct = acc.n_distinct();
-    let samples = acc.samples.lock().unwrap().clone();
+    let mut samples = acc.samples.lock().unwrap().clone();
+    if samples.is_empty() {
+        if let Some(f) = acc.fallback.lock().unwrap().clone() {
+            samples.push(f);
+        }
+    }
     let outcomes = acc.outcomes.lock().unwrap().clone();
     let counters = acc.counters.lock().unwrap().clone();
     let mut coverage = json!({
